@@ -5,6 +5,7 @@
 import AITB.Model.LearnersCheck
 import AITB.Props.C11
 import AITB.Props.C11Traces
+import AITB.Props.C11PS
 
 namespace AITB.Learn
 
@@ -153,6 +154,104 @@ theorem sarsal_qstar_fixed (γ α lam tol : Rat) (A : Nat)
     rw [argmaxA_spec A (q (next s a)), ← hq s a]; ring
   simp only [this]
   exact updateTraces_err0 s a _ tol tr q hnd
+
+/-! ### what the fixed-point checker establishes about the implementation's table
+
+  A table whose Bellman-optimality residual is at most `ε` lies within `ε/(1-γ)` of THE optimal Q-function
+  (approximate version of `bellman_fixed_point_unique`; the driver evaluates the residual of PrioritizedSweeping's
+  output exactly). -/
+
+/-- one-sided step: `q1 ≤ B q1 + ε1`, `B q2 ≤ q2 + ε2`, `q1 ≤ q2 + D` ⟹ `q1 ≤ q2 + γ D + ε1 + ε2` -/
+theorem bellman_contract_side_approx (m : MDP) (hT : ∀ s a s1, 0 ≤ m.T s a s1)
+    (hrow : ∀ s a, s < m.S → a < m.A → sumTo m.S (fun s1 => m.T s a s1) ≤ 1)
+    (hγ0 : 0 ≤ m.γ) (q1 q2 : QF) (ε1 ε2 : Rat)
+    (h1 : ∀ s a, s < m.S → a < m.A →
+      q1 s a ≤ m.R s a + m.γ * sumTo m.S (fun s1 => m.T s a s1 * maxA m.A (q1 s1)) + ε1)
+    (h2 : ∀ s a, s < m.S → a < m.A →
+      m.R s a + m.γ * sumTo m.S (fun s1 => m.T s a s1 * maxA m.A (q2 s1)) ≤ q2 s a + ε2)
+    (B : Rat) (hB : 0 ≤ B) (hb : ∀ s a, s < m.S → a < m.A → q1 s a ≤ q2 s a + B) :
+    ∀ s a, s < m.S → a < m.A → q1 s a ≤ q2 s a + m.γ * B + ε1 + ε2 := by
+  intro s a hs ha
+  have hmax : ∀ s1, s1 < m.S → maxA m.A (q1 s1) ≤ maxA m.A (q2 s1) + B := by
+    intro s1 hs1
+    unfold maxA
+    apply maxTo_le_add
+    intro i hi
+    exact hb s1 i hs1 (by omega)
+  have hsum := sumTo_le_add m.S (m.T s a) (fun s1 => maxA m.A (q1 s1)) (fun s1 => maxA m.A (q2 s1)) B
+    (hT s a) hmax
+  have hr := hrow s a hs ha
+  have hrB : sumTo m.S (fun s1 => m.T s a s1) * B ≤ B := by nlinarith
+  have : m.γ * sumTo m.S (fun s1 => m.T s a s1 * maxA m.A (q1 s1))
+      ≤ m.γ * (sumTo m.S (fun s1 => m.T s a s1 * maxA m.A (q2 s1)) + B) :=
+    mul_le_mul_of_nonneg_left (le_trans hsum (by linarith)) hγ0
+  have a1 := h1 s a hs ha
+  have a2 := h2 s a hs ha
+  linarith
+
+theorem approx_fixed_point_le (m : MDP) (hT : ∀ s a s1, 0 ≤ m.T s a s1)
+    (hrow : ∀ s a, s < m.S → a < m.A → sumTo m.S (fun s1 => m.T s a s1) ≤ 1)
+    (hγ0 : 0 ≤ m.γ) (hγ1 : m.γ < 1) (_hA : 0 < m.A) (q1 q2 : QF) (ε1 ε2 : Rat) (hε : 0 ≤ ε1 + ε2)
+    (h1 : ∀ s a, s < m.S → a < m.A →
+      q1 s a ≤ m.R s a + m.γ * sumTo m.S (fun s1 => m.T s a s1 * maxA m.A (q1 s1)) + ε1)
+    (h2 : ∀ s a, s < m.S → a < m.A →
+      m.R s a + m.γ * sumTo m.S (fun s1 => m.T s a s1 * maxA m.A (q2 s1)) ≤ q2 s a + ε2) :
+    ∀ s a, s < m.S → a < m.A → (q1 s a - q2 s a) * (1 - m.γ) ≤ ε1 + ε2 := by
+  let D : Rat := supTo m.S (fun s => supTo m.A (fun a => q1 s a - q2 s a))
+  have hD0 : 0 ≤ D := supTo_nonneg _ _
+  have hD : ∀ s a, s < m.S → a < m.A → q1 s a ≤ q2 s a + D := by
+    intro s a hs ha
+    have e1 : q1 s a - q2 s a ≤ supTo m.A (fun a => q1 s a - q2 s a) :=
+      le_supTo m.A (fun a => q1 s a - q2 s a) a ha
+    have e2 : supTo m.A (fun a => q1 s a - q2 s a) ≤ D :=
+      le_supTo m.S (fun s => supTo m.A (fun a => q1 s a - q2 s a)) s hs
+    linarith
+  have hc := bellman_contract_side_approx m hT hrow hγ0 q1 q2 ε1 ε2 h1 h2 D hD0 hD
+  have hγD : 0 ≤ m.γ * D + (ε1 + ε2) := by nlinarith [mul_nonneg hγ0 hD0]
+  have hDle : D ≤ m.γ * D + (ε1 + ε2) := by
+    apply supTo_le _ _ _ hγD
+    intro s hs
+    apply supTo_le _ _ _ hγD
+    intro a ha
+    have := hc s a hs ha
+    linarith
+  intro s a hs ha
+  have h3 := hD s a hs ha
+  have h4 : 0 < 1 - m.γ := by linarith
+  nlinarith
+
+/-- **fixed-point checker, meaning**: residual ≤ ε ⟹ every entry within `ε/(1-γ)` of the optimal Q-function -/
+theorem residual_bounds_distance (m : MDP) (hT : ∀ s a s1, 0 ≤ m.T s a s1)
+    (hrow : ∀ s a, s < m.S → a < m.A → sumTo m.S (fun s1 => m.T s a s1) ≤ 1)
+    (hγ0 : 0 ≤ m.γ) (hγ1 : m.γ < 1) (hA : 0 < m.A) (q qstar : QF) (ε : Rat) (hε : 0 ≤ ε)
+    (hres : bellmanResidual m q ≤ ε)
+    (hstar : ∀ s a, s < m.S → a < m.A →
+      qstar s a = m.R s a + m.γ * sumTo m.S (fun s1 => m.T s a s1 * maxA m.A (qstar s1))) :
+    ∀ s a, s < m.S → a < m.A → absR (q s a - qstar s a) * (1 - m.γ) ≤ ε := by
+  have hr := bellmanResidual_sound m q ε hres
+  have up : ∀ s a, s < m.S → a < m.A →
+      q s a ≤ m.R s a + m.γ * sumTo m.S (fun s1 => m.T s a s1 * maxA m.A (q s1)) + ε := by
+    intro s a hs ha
+    have := hr s a hs ha
+    unfold absR at this
+    split at this <;> linarith
+  have dn : ∀ s a, s < m.S → a < m.A →
+      m.R s a + m.γ * sumTo m.S (fun s1 => m.T s a s1 * maxA m.A (q s1)) ≤ q s a + ε := by
+    intro s a hs ha
+    have := hr s a hs ha
+    unfold absR at this
+    split at this <;> linarith
+  have sup0 : ∀ s a, s < m.S → a < m.A →
+      qstar s a ≤ m.R s a + m.γ * sumTo m.S (fun s1 => m.T s a s1 * maxA m.A (qstar s1)) + 0 := by
+    intro s a hs ha; rw [← hstar s a hs ha]; linarith
+  have sdn0 : ∀ s a, s < m.S → a < m.A →
+      m.R s a + m.γ * sumTo m.S (fun s1 => m.T s a s1 * maxA m.A (qstar s1)) ≤ qstar s a + 0 := by
+    intro s a hs ha; rw [← hstar s a hs ha]; linarith
+  intro s a hs ha
+  have a1 := approx_fixed_point_le m hT hrow hγ0 hγ1 hA q qstar ε 0 (by linarith) up sdn0 s a hs ha
+  have a2 := approx_fixed_point_le m hT hrow hγ0 hγ1 hA qstar q 0 ε (by linarith) sup0 dn s a hs ha
+  unfold absR
+  split <;> nlinarith
 
 /-! ### observation outside the property's clauses (modelled as written)
 
